@@ -35,6 +35,7 @@ type outcome struct {
 	Class  string
 	Detail string // error text, panic value, or canonical result for the differential
 	Stack  string
+	Origin string // third-party package the panic was raised in ("" = dapr/kit itself)
 	Dur    time.Duration
 }
 
@@ -77,7 +78,8 @@ func call(c Case) outcome {
 	go func() {
 		defer func() {
 			if r := recover(); r != nil {
-				ch <- outcome{Class: clsPanic, Detail: fmt.Sprint(r), Stack: trimStack(string(debug.Stack()))}
+				st := string(debug.Stack())
+				ch <- outcome{Class: clsPanic, Detail: fmt.Sprint(r), Stack: trimStack(st), Origin: panicOrigin(st)}
 			}
 		}()
 		cls, det := e.Fn(c.Args)
@@ -113,6 +115,11 @@ func panicClass(msg string) string {
 		return "make-size"
 	case strings.Contains(msg, "divide by zero"):
 		return "divide-by-zero"
+	case strings.Contains(msg, "on zero Value"):
+		if m := regexp.MustCompile(`reflect\.Value\.(\w+) on zero Value`).FindStringSubmatch(msg); m != nil {
+			return "reflect-zero-value-" + strings.ToLower(m[1])
+		}
+		return "reflect-zero-value"
 	case strings.Contains(msg, "reflect:") || strings.Contains(msg, "reflect."):
 		return "reflect-misuse"
 	case strings.Contains(msg, "assignment to entry in nil map"):
@@ -132,6 +139,39 @@ func panicClass(msg string) string {
 		}
 		return "explicit-" + s
 	}
+}
+
+// panicOrigin names the third-party package whose frame is the innermost non-standard-library
+// frame of a panic ("" when that frame is dapr/kit's own): part of the finding id, so that a
+// known defect inside a library never hides a dapr/kit-side panic of the same class.
+func panicOrigin(stack string) string {
+	for _, l := range strings.Split(stack, "\n") {
+		if l == "" || l[0] == '\t' || strings.HasPrefix(l, "goroutine ") || strings.HasPrefix(l, "panic(") {
+			continue
+		}
+		fn := l
+		if i := strings.LastIndexByte(fn, '('); i > 0 {
+			fn = fn[:i]
+		}
+		slash := strings.LastIndexByte(fn, '/')
+		dot := strings.IndexByte(fn[slash+1:], '.')
+		if dot < 0 {
+			continue
+		}
+		pkg := fn[:slash+1+dot]
+		first := pkg
+		if i := strings.IndexByte(pkg, '/'); i >= 0 {
+			first = pkg[:i]
+		}
+		if !strings.Contains(first, ".") { // standard library, main
+			continue
+		}
+		if strings.HasPrefix(pkg, "github.com/dapr/kit") {
+			return ""
+		}
+		return pkg[strings.LastIndexByte(pkg, '/')+1:]
+	}
+	return ""
 }
 
 func trimStack(s string) string {
@@ -171,7 +211,11 @@ func findingID(c Case, o outcome) string {
 	if c.Family != "" {
 		id += "-" + c.Family
 	}
-	return id + "-" + cls
+	id += "-" + cls
+	if o.Origin != "" {
+		id += "-in-" + o.Origin
+	}
+	return id
 }
 
 // do executes a case, runs the model-independent monitor and records statistics.
